@@ -2,18 +2,54 @@
 
 Facets
   field_measures   participation ratio (formula, bounds [1/N,1], scale invariance, uniform -> 1, one particle -> 1/N),
-                   local alignment (mean neighbour dot product), phase quotient (formula, [-1,1], uniform -> 1)
+                   local alignment (mean neighbour dot product), phase quotient (formula, [-1,1], uniform -> 1);
+                   d 1..3, N 1..60, cn up to 30; second round on the same field array / file name (round 3)
   divergence_curl  neighbour averages of r_ij.u_ij and r_ij x u_ij with the reference minimum image (C02 contract) on
-                   generated cells / masks / synthetic lists; matrix-form value tr(A M_i) for linear fields u = A r + b
-                   in open boundaries
+                   generated cells (orthogonal, tilted, axis-permuted tilted = general matrix) / masks / synthetic lists;
+                   matrix-form value tr(A M_i) for linear fields u = A r + b in open boundaries
   linear_lattice   rectangular lattices with the 2d axis neighbours, open boundaries, u = A r + b: interior particles
                    give div = (1/d) sum_k a_k^2 A_kk and curl_a = (1/d) eps_abc a_b^2 A_cb (closed form)
   vibrability      eigenvalue-weighted mode sum; for the full spectrum of a symmetric positive definite matrix the
-                   result is the per-particle block trace of its inverse
+                   result is the per-particle block trace of its inverse; integer-typed frequencies / vectors, N to 40
   decomposition    vector_decomposition_sq: Fourier sums against an independent reference, L || q, q.T = 0, L + T = F,
-                   Sq = Sq_L + Sq_T, per-|q| averages, csv side file; tolerances derived from the rounding at 8 decimals
+                   Sq = Sq_L + Sq_T, per-|q| averages, csv side file; tolerances derived from the rounding at 8 decimals;
+                   1..12 wave vectors, and lists of 60..300 (round 3), N to 200
   fft_corr         vector_fft_corr: frame-averaged spectra (csv), per-q correlations of FFT / T_FFT / L_FFT against a
-                   compact reference of property C14, time axis, `.npy` side files equal to the returned tables
+                   compact reference of property C14, time axis, `.npy` side files equal to the returned tables; 1..5
+                   frames; even / uneven schedules, one frame written twice, one step back (round 3)
+  fft_corr_long    the same with 6..12 frames (thorough tier mostly)
+
+CLAUSES (statement + quantifier, split; tags are the class tags of evidence/C15.json, coverage.facets.*.classes)
+  clause / axis                              decided by                                     populated classes
+  1 any vector field                         every facet draws the field                    field-uniform -one -localised -random -integer
+                                                                                            -linear -wave-L -wave-T; dtype-int64 /
+                                                                                            field-dtype-int64; layout-C -F -strided; d1 d2 d3
+  2 any configuration                        divergence_curl / decomposition                ortho tri general; tilt-negative -positive
+                                                                                            -mixed-sign; mask-full -partial -open; inside
+                                                                                            outside; image-needed; cubic unequal-edges;
+                                                                                            origin-*; N<=20 N25-60 N>=60
+  3 any neighbour list                       field_measures / divergence_curl               cn-varies cn-constant cn=1-present cn-max>6; lists-directed;
+                                                                                            rows-shuffled; p0-padded-row; file-style-plain
+                                                                                            -padded -tight; two-frame-file /
+                                                                                            file-has-a-later-frame (lists are directed)
+  4 PR = (sum|e|^2)^2/(N sum|e|^4)           close(rtol 1e-10) vs reference                 N1 N<=4 N<=10 N<=20 N25-60
+    in [1/N, 1]; scale invariant             bounds; PR(c e) = PR(e), c of either sign
+  5 alignment = mean neighbour dot product   close vs reference, every particle             second-round-same-file-name (WAS: one call per
+                                                                                            file name; NOW lists rewritten under the name)
+  6 phase quotient in [-1, 1]                bounds + formula sum / sum|.|                  pq-checked pq-mixed-signs pq-undefined
+  7 divergence / curl = neighbour averages   both outputs vs reference (2D: array only,     d2 d3; analytic-linear; second-call-retilt
+                                             3D: pair), closed forms for u = A r            -rescale; WAS lower-triangular cells only
+  8 vibrability = eigenvalue-weighted sum    close vs reference; SPD block-trace identity   all-modes subset-of-modes neg-freq; freq-int64
+                                                                                            vecs-int64; N1 N>1 N20-40
+  9 L parallel q, T orthogonal q, L + T = F  identities on the returned columns + each      nq1 nq<=12 nq>=60 (WAS <= 12); q-int32;
+    S = S_L + S_T for every wave vector      column vs independent Fourier sum              multi-q-groups; L-dominated-q T-dominated-q;
+                                                                                            name-ends-with-.csv (WAS never)
+ 10 multi-frame series (correlation variant) per-q correlations vs C14 reference, time axis frames1..5, frames6-12 (WAS 2..5); schedule-even
+                                             from the timestep lines, spectra = frame mean  -uneven -repeated-frame -step-back -single-frame;
+                                                                                            keywords-omitted-dt -outputfile -both (WAS
+                                                                                            always passed)
+  Not asserted: more than 200 neighbours per particle (documented cap, which 200 is unspecified); triclinic cells in
+  the Fourier part (the routine uses boxlength only); float32 fields; a box that changes between the frames of a series.
 """
 from __future__ import annotations
 
@@ -34,32 +70,44 @@ from PyMatterSim.reader.reader_utils import Snapshots
 from PyMatterSim.static.vector import (divergence_curl, local_vector_alignment, participation_ratio, phase_quotient,
                                        vector_decomposition_sq, vector_fft_corr, vibrability)
 
-RULE = ("fields {uniform, one-particle, localised, random, linear u = A r + b, plane waves along / across q} x N 2-20 "
-        "(lattices up to 36) x d {2,3} x synthetic neighbour files (cn >= 1, rows in any order) x cells {ortho, tri} x "
-        "masks x non-zero integer wave vectors x T 2-5 frames with even / uneven timesteps. Extension 1: coordination "
-        "number varying within a frame (padded rows), second call of divergence_curl / vector_decomposition_sq on the "
-        "same snapshot, field and file objects after an in-place change (re-tilted or rescaled cell, new positions, "
-        "field, lists). Non-trivial rules per facet.")
+RULE = ("fields {uniform, one-particle, localised, random, integer-valued, linear u = A r + b, plane waves along / across q} "
+        "as float64 or int64, C / Fortran / strided layout x N 1-60 (lattices up to 45, Fourier part up to 200) x d {1,2,3} x "
+        "synthetic directed neighbour files (cn 1..30 varying within the frame, rows in any order, three text styles, "
+        "optional later frame) x cells {ortho, tri, axis-permuted tri} x masks x non-zero integer wave vectors (1..12, or "
+        "60..300 rows; int64 / int32) x 1-12 frames with even / uneven timesteps, a frame written twice, a step back. "
+        "Coordination number varying within a frame (padded rows); second call of the measures / divergence_curl / "
+        "vector_decomposition_sq on the same snapshot, field and file objects after an in-place change (re-tilted or "
+        "rescaled cell, new positions, field, lists rewritten under the same name); keywords omitted. Non-trivial rules "
+        "per facet.")
 ASSUMPTIONS = [
     "every particle has >= 1 listed neighbour (the measures divide by the coordination number); lists hold distinct "
-    "particles other than the centre",
-    "fields are real float64 and not identically zero; the phase quotient is only asserted when sum |e_i.e_j| > 0",
-    "divergence/curl: particles with a neighbour on a half-cell minimum-image tie are not compared",
+    "particles other than the centre; at most 30 neighbours (documented cap: 200)",
+    "fields are real (float64, or integer-valued int64) and not identically zero; the phase quotient is only asserted "
+    "when sum |e_i.e_j| > 0",
+    "memory layout carries no meaning: a Fortran-ordered field or a strided view into a wider table is the same field",
+    "divergence/curl: particles with a neighbour on a half-cell minimum-image tie are not compared; the cell is "
+    "snapshot.hmatrix, any invertible matrix (generated: LAMMPS lower-triangular cells and their axis permutations)",
+    "neighbour file: the FIRST frame of the file is the list (the routines open the file themselves)",
     "Fourier part: orthogonal cells (q = 2 pi n / L), identical box in all frames of a series; either sign convention "
     "of the transform is accepted (docs/sq.md: exp(-iq.r), docs/vectors.md: exp(+iq.r)) as long as all columns agree",
     "the library rounds its tables at 8 decimals (twice for the split): tolerances are the propagated bounds "
     "eta = sqrt(2d) 5e-9 and eps_q = (sqrt(d)+1) 5e-9/|q| (unit vector built from rounded q columns), not tuned numbers",
     "per-|q| averages are only compared when distinct |q| values are separated by more than 1e-7",
     "correlations with a lag-zero value not safely above its rounding error are skipped (counted as ill-conditioned)",
+    "series: one snapshot per frame in the order given; 'evenly spaced' = all timestep differences equal (property C14), "
+    "so a repeated or decreasing timestep makes the series uneven (first frame = only origin); time axis = "
+    "(timestep - first timestep) dt with the documented default dt = 0.002",
 ]
 MANIFEST = {
     "text": "participation ratio, local alignment, phase quotient, divergence/curl, vibrability obey their formulas, "
             "bounds and analytic values for linear fields; the Fourier split returns L parallel and T orthogonal to q "
             "with L + T = F and Sq = Sq_L + Sq_T and agrees with an independent Fourier sum; vector_fft_corr spectra "
             "and per-q correlations agree with a reference of the origin-averaged normalised autocorrelation; side "
-            "files equal the returned tables",
-    "note": "references in pbt/ref/vecref.py (numpy only), minimum image = contract of C02; N <= 20 (lattices <= 36), "
-            "<= 12 wave vectors, T <= 5; tolerances propagated from the library's rounding at 8 decimals",
+            "files equal the returned tables; integer-typed / Fortran-ordered / strided fields, general cell matrices, "
+            "long wave-vector lists, repeated calls on the same objects and irregular frame schedules included",
+    "note": "references in pbt/ref/vecref.py (numpy only), minimum image = contract of C02; N <= 60 (lattices <= 45, "
+            "Fourier part <= 200), <= 300 wave vectors, T <= 12; tolerances propagated from the library's rounding at 8 "
+            "decimals",
     "technique": "property-based testing (Hypothesis): reference-model differential plus metamorphic / algebraic "
                  "identities (bounds, scale invariance, Pythagorean split, closed forms for linear fields)",
 }
@@ -72,6 +120,18 @@ VAL = st.one_of(st.integers(-40, 40).map(lambda k: k / 4.0), fl(-10.0, 10.0))
 
 @st.composite
 def lists_st(draw, N, cnmax=6):
+    """Directed synthetic lists: cn in 1..cnmax drawn per particle (so it varies within the frame), distinct neighbours
+    other than the centre, rows of the file in any order.  For more than 24 particles the bulk of the lists comes from
+    a drawn seed (not shrunk)."""
+    if N > 24:
+        rng = np.random.default_rng(draw(st.integers(0, 2**32 - 1)))
+        fr = []
+        for i in range(N):
+            cn = int(rng.integers(1, min(cnmax, N - 1) + 1))
+            others = np.delete(np.arange(N), i)
+            fr.append([int(j) for j in rng.permutation(others)[:cn]])
+        order = [int(k) for k in (rng.permutation(N) if draw(st.booleans()) else range(N))]
+        return fr, order
     fr = []
     for i in range(N):
         others = [j for j in range(N) if j != i]
@@ -80,6 +140,22 @@ def lists_st(draw, N, cnmax=6):
         fr.append([int(j) for j in perm[:cn]])
     order = [int(k) for k in (draw(st.permutations(range(N))) if draw(st.booleans()) else range(N))]
     return fr, order
+
+
+LAYOUTS = ["C", "C", "C", "F", "strided"]
+
+
+def with_layout(a, layout):
+    """The same values in another memory layout: Fortran order (a transposed (d, N) table), or a strided view into a
+    wider table (`data[:, 2:2+d]` of a dump with more columns).  Returns (array, keep-alive base)."""
+    a = np.asarray(a)
+    if layout == "F" and a.ndim >= 2:
+        return np.asfortranarray(a), None
+    if layout == "strided" and a.ndim >= 2:
+        wide = np.full(a.shape[:-1] + (a.shape[-1] + 3,), 7, dtype=a.dtype)
+        wide[..., 2:2 + a.shape[-1]] = a
+        return wide[..., 2:2 + a.shape[-1]], wide
+    return a.copy(), None
 
 
 @st.composite
@@ -115,15 +191,23 @@ def field_st(draw, N, d, kinds=("uniform", "one", "localised", "random", "intege
     return e, kind
 
 
-def write_lists(lists, order, extra_frame=None, name="nb.dat"):
+def write_lists(lists, order, extra_frame=None, name="nb.dat", style="plain", relative=False):
     frames, orders = [lists], [order]
     if extra_frame is not None:
         frames.append(extra_frame)
         orders.append(list(range(len(lists))))
     fn = os.path.join(os.getcwd(), name)
     with open(fn, "w") as f:
-        f.write(cgref.neighbor_file_text(frames, orders))
-    return fn
+        f.write(cgref.neighbor_file_text(frames, orders, style=style))
+    return name if relative else fn         # the routines open the file themselves: relative or absolute path
+
+
+def _directed(lists):
+    pairs = {(i, int(j)) for i, nb in enumerate(lists) for j in nb}
+    return "lists-directed" if any((j, i) not in pairs for (i, j) in pairs) else "lists-symmetric"
+
+
+FILE_STYLES = ["plain", "plain", "padded", "tight"]
 
 
 # ============================================================================= PR / alignment / phase quotient
@@ -131,54 +215,85 @@ def write_lists(lists, order, extra_frame=None, name="nb.dat"):
 
 @st.composite
 def measures_st(draw):
-    d = draw(st.sampled_from([2, 3]))
-    N = draw(st.integers(2, 20))
+    d = draw(st.sampled_from([2, 3, 2, 3, 1]))
+    size = draw(st.sampled_from(["small"] * 6 + ["one", "large"]))
+    N = 1 if size == "one" else (draw(st.integers(25, 60)) if size == "large" else draw(st.integers(2, 20)))
     e, kind = draw(field_st(N, d))
-    lists, order = draw(lists_st(N))
-    second = draw(lists_st(N))[0] if draw(st.integers(0, 3)) == 0 else None
+    cnmax = 30 if size == "large" else 6
+    lists, order = draw(lists_st(N, cnmax)) if N > 1 else ([[]], [0])
+    second = draw(lists_st(N, cnmax))[0] if N > 1 and draw(st.integers(0, 3)) == 0 else None
     c = draw(st.one_of(st.sampled_from([-1.0, 2.0, 0.5, -3.0, 1e-3, 1e3]), nice_float(0.01, 100.0)))
+    again = None
+    if N > 1 and draw(st.integers(0, 2)) == 0:
+        # second round on the SAME field array and the SAME file name: new lists written under the old name, new field
+        # values assigned in place (the measures of the next mode / next frame)
+        l2, o2 = draw(lists_st(N, cnmax))
+        again = {"e": draw(field_st(N, d, kinds=(kind,)))[0], "lists": l2, "order": o2}
     return {"d": d, "e": e, "kind": kind, "lists": lists, "order": order, "second": second, "c": float(c),
-            "as_int": bool(kind == "integer" and draw(st.integers(0, 2)) > 0)}
+            "as_int": bool(kind == "integer" and draw(st.integers(0, 2)) > 0), "again": again,
+            "layout": draw(st.sampled_from(LAYOUTS)), "style": draw(st.sampled_from(FILE_STYLES))}
+
+
+def _verify_measures(e, inp, lists, fn, kind, c, label=""):
+    N, d = e.shape
+    pr = participation_ratio(inp)
+    require(np.ndim(pr) == 0 and np.isfinite(pr), f"participation_ratio returned {pr!r}{label}")
+    pr = float(pr)
+    want = vecref.participation_ratio(e)
+    close("participation_ratio" + label, pr, want, rtol=1e-10, atol=0)
+    require(1.0 / N - 1e-12 <= pr <= 1.0 + 1e-12, f"participation ratio {pr!r} outside [1/N, 1] for N = {N}{label}")
+    prc = float(participation_ratio(c * e))
+    close(f"participation_ratio({c} * e) vs participation_ratio(e){label}", prc, pr, rtol=1e-10, atol=0)
+    if kind == "uniform" or N == 1:
+        close("participation ratio of a uniform field" + label, pr, 1.0, rtol=1e-12, atol=0)
+    if kind == "one":
+        close("participation ratio of a one-particle field" + label, pr, 1.0 / N, rtol=1e-12, atol=0)
+    if N == 1:
+        return False, 0.0, 0.0
+    scale = float(np.abs(e).max()) ** 2 * d
+    al = arr("local_vector_alignment" + label, local_vector_alignment(inp, fn), shape=(N,))
+    close("local_vector_alignment" + label, al, vecref.alignment(e, lists), rtol=1e-10, atol=1e-13 * scale)
+    s0, s1 = vecref.phase_quotient(e, lists)
+    pq_checked = s1 > 1e-9 * scale
+    if pq_checked:
+        pq = phase_quotient(inp, fn)
+        require(np.ndim(pq) == 0 and np.isfinite(pq), f"phase_quotient returned {pq!r}{label}")
+        close("phase_quotient" + label, float(pq), s0 / s1, rtol=1e-10, atol=1e-12)
+        require(-1.0 - 1e-12 <= float(pq) <= 1.0 + 1e-12, f"phase quotient {pq!r} outside [-1, 1]{label}")
+        if kind == "uniform":
+            close("phase quotient of a uniform field" + label, float(pq), 1.0, rtol=1e-12, atol=0)
+    require(np.array_equal(inp, e), "a vector measure modified its input field" + label)
+    return pq_checked, s0, s1
 
 
 def check_measures(case):
     e, lists = case["e"], case["lists"]
     N, d = e.shape
-    fn = write_lists(lists, case["order"], case["second"])
-    inp = e.astype(np.int64) if case.get("as_int") else e.copy()
-    pr = participation_ratio(inp)
-    require(np.ndim(pr) == 0 and np.isfinite(pr), f"participation_ratio returned {pr!r}")
-    pr = float(pr)
-    want = vecref.participation_ratio(e)
-    close("participation_ratio", pr, want, rtol=1e-10, atol=0)
-    require(1.0 / N - 1e-12 <= pr <= 1.0 + 1e-12, f"participation ratio {pr!r} outside [1/N, 1] for N = {N}")
-    prc = float(participation_ratio(case["c"] * e))
-    close(f"participation_ratio({case['c']} * e) vs participation_ratio(e)", prc, pr, rtol=1e-10, atol=0)
-    if case["kind"] == "uniform":
-        close("participation ratio of a uniform field", pr, 1.0, rtol=1e-12, atol=0)
-    if case["kind"] == "one":
-        close("participation ratio of a one-particle field", pr, 1.0 / N, rtol=1e-12, atol=0)
-    scale = float(np.abs(e).max()) ** 2 * d
-    al = arr("local_vector_alignment", local_vector_alignment(inp, fn), shape=(N,))
-    close("local_vector_alignment", al, vecref.alignment(e, lists), rtol=1e-10, atol=1e-13 * scale)
-    s0, s1 = vecref.phase_quotient(e, lists)
-    pq_checked = s1 > 1e-9 * scale
-    if pq_checked:
-        pq = phase_quotient(inp, fn)
-        require(np.ndim(pq) == 0 and np.isfinite(pq), f"phase_quotient returned {pq!r}")
-        close("phase_quotient", float(pq), s0 / s1, rtol=1e-10, atol=1e-12)
-        require(-1.0 - 1e-12 <= float(pq) <= 1.0 + 1e-12, f"phase quotient {pq!r} outside [-1, 1]")
-        if case["kind"] == "uniform":
-            close("phase quotient of a uniform field", float(pq), 1.0, rtol=1e-12, atol=0)
-    require(np.array_equal(inp, e), "a vector measure modified its input field")
+    style = case.get("style", "plain")
+    rel = case.get("layout", "C") != "C" or style == "tight"      # derived from drawn fields: about half of the cases
+    fn = write_lists(lists, case["order"], case["second"], style=style, relative=rel) if N > 1 else None
+    inp, _keep = with_layout(e.astype(np.int64) if case.get("as_int") else e, case.get("layout", "C"))
+    pq_checked, s0, s1 = _verify_measures(e, inp, lists, fn, case["kind"], case["c"])
+    ag = case.get("again")
+    if ag:
+        write_lists(ag["lists"], ag["order"], style=style)        # same file name, other lists
+        inp[...] = ag["e"]                                        # same array object, other values
+        _verify_measures(ag["e"], inp, ag["lists"], fn, "again", case["c"],
+                         " (second round: lists rewritten under the same file name, field changed in place)")
     tags = [f"d{d}", "field-" + case["kind"], "dtype-int64" if case.get("as_int") else "dtype-float64", "pq-checked" if pq_checked else "pq-undefined",
             "two-frame-file" if case["second"] is not None else "one-frame-file",
             "rows-shuffled" if case["order"] != list(range(N)) else "rows-ordered",
-            "N<=4" if N <= 4 else ("N<=10" if N <= 10 else "N>10")]
+            "N1" if N == 1 else ("N<=4" if N <= 4 else ("N<=10" if N <= 10 else ("N<=20" if N <= 20 else "N25-60"))),
+            "layout-" + case.get("layout", "C"), "file-style-" + style, "path-relative" if rel else "path-absolute"]
+    if ag:
+        tags.append("second-round-same-file-name")
     if pq_checked and abs(s0) < s1 * (1 - 1e-9):
         tags.append("pq-mixed-signs")
     cns = [len(nb) for nb in lists]
     tags.append("cn-varies" if len(set(cns)) > 1 else "cn-constant")
+    tags.append("cn-max>6" if max(cns) > 6 else "cn-max<=6")
+    if N > 1:
+        tags.append(_directed(lists))
     if np.abs(e[0]).max() > 0.1 and any(c < max(cns) for c in cns):
         tags.append("p0-nonzero-with-padded-rows")
     nontrivial = bool(case["kind"] in ("random", "localised") and pq_checked)
@@ -195,9 +310,18 @@ def describe_measures(case):
 
 @st.composite
 def divcurl_st(draw):
-    cfg = draw(config_st(nmin=2, nmax=20, K=1, frames=(1, 1), lmin=2.0, lmax=30.0, exact_lattice=False))
+    big = draw(st.integers(0, 9)) == 0
+    cfg = draw(config_st(nmin=25 if big else 2, nmax=60 if big else 20, K=1, frames=(1, 1), lmin=2.0, lmax=30.0,
+                         exact_lattice=False))
     d, N = cfg["d"], len(cfg["types"])
-    lists, order = draw(lists_st(N))
+    if cfg["cell"]["kind"] == "tri" and draw(st.booleans()):
+        # a triclinic cell after an axis permutation (x<->y, cyclic ...): the cell matrix is no longer lower triangular
+        perm = list(draw(st.permutations(range(d)).filter(lambda p_: list(p_) != list(range(d)))))
+        c0 = cfg["cell"]
+        cfg["cell"] = {**c0, "kind": "general", "H": c0["H"][perm][:, perm], "lo": c0["lo"][perm]}
+        cfg["pos"] = [p_[:, perm] for p_ in cfg["pos"]]
+        cfg["ppp"] = np.asarray(cfg["ppp"])[perm]
+    lists, order = draw(lists_st(N, 30 if big else 6))
     kind = draw(st.sampled_from(["random", "linear", "linear", "integer"]))
     A = draw(hnp.arrays(np.float64, (d, d), elements=st.one_of(st.integers(-8, 8).map(lambda k: k / 4.0), fl(-2.0, 2.0)), fill=st.nothing()))
     b = draw(hnp.arrays(np.float64, (d,), elements=VAL, fill=st.nothing()))
@@ -209,8 +333,11 @@ def divcurl_st(draw):
         u = draw(hnp.arrays(np.float64, (N, d), elements=VAL, fill=st.nothing()))
     if kind == "linear" and draw(st.booleans()):
         cfg["ppp"] = np.zeros(d, dtype=int)          # open boundaries: the matrix form tr(A M_i) applies
-    cfg.update(lists=lists, order=order, fkind=kind, A=A, b=b, u=u, again=None)
-    if draw(st.integers(0, 2)) == 0:
+    cfg.update(lists=lists, order=order, fkind=kind, A=A, b=b, u=u, again=None,
+               layout=draw(st.sampled_from(LAYOUTS)), style=draw(st.sampled_from(FILE_STYLES)),
+               ppp_dtype=draw(st.sampled_from(["int64", "int64", "int32"])),
+               later_frame=draw(lists_st(N))[0] if draw(st.integers(0, 3)) == 0 else None)
+    if cfg["cell"]["kind"] != "general" and draw(st.integers(0, 2)) == 0:
         # second call on the SAME snapshot / field objects after an in-place change (next frame of a sheared or
         # rescaled trajectory): triclinic -> new tilt factors with the same edge lengths, orthogonal -> rescaled edges
         c0 = cfg["cell"]
@@ -259,10 +386,12 @@ def check_divcurl(case):
     d, u, lists = case["d"], case["u"], case["lists"]
     pos, cell, ppp = case["pos"][0], case["cell"], np.asarray(case["ppp"])
     N = len(pos)
-    fn = write_lists(lists, case["order"])
+    style = case.get("style", "plain")
+    rel = case.get("layout", "C") != "C" or style == "tight"
+    fn = write_lists(lists, case["order"], case.get("later_frame"), style=style, relative=rel)   # FIRST frame = the list
     snap = snapshot_from(cell, pos, case["types"], 0)
-    uin = u.copy()
-    pin = ppp.copy()
+    uin, _keep = with_layout(u, case.get("layout", "C"))
+    pin = ppp.astype(np.int32) if case.get("ppp_dtype") == "int32" else ppp.copy()
     div, curl = _call_divcurl(snap, uin, pin, fn, d, N)
     analytic = case["fkind"] == "linear" and not ppp.any()
     rdiv, tied = _verify_divcurl("", div, curl, pos, cell["H"], ppp, u, lists, d, case["A"] if analytic else None)
@@ -282,7 +411,7 @@ def check_divcurl(case):
         if snap.realbounds is not None:
             snap.realbounds[...] = fresh.realbounds
         uin[...] = ag["u"]
-        write_lists(ag["lists"], ag["order"])            # same file name, new lists
+        write_lists(ag["lists"], ag["order"], style=style)   # same file name, new lists
         div2, curl2 = _call_divcurl(snap, uin, pin, fn, d, N)
         _, tied2 = _verify_divcurl(" (second call, snapshot changed in place)", div2, curl2, pos2, c2["H"], ppp, ag["u"],
                                    ag["lists"], d)
@@ -294,7 +423,14 @@ def check_divcurl(case):
             "mask-full" if ppp.all() else ("mask-open" if not ppp.any() else "mask-partial"),
             "image-needed" if wrapped else "no-image", "outside" if case["outside"] else "inside",
             "cn-varies" if len(set(cns)) > 1 else "cn-constant",
-            "p0-padded-row" if cns[0] < max(cns) else "p0-full-row"]
+            "p0-padded-row" if cns[0] < max(cns) else "p0-full-row",
+            "cn-max>6" if max(cns) > 6 else "cn-max<=6", "N<=20" if N <= 20 else "N25-60",
+            "layout-" + case.get("layout", "C"), "file-style-" + style, "ppp-" + case.get("ppp_dtype", "int64"),
+            "file-has-a-later-frame" if case.get("later_frame") is not None else "one-frame-file",
+            "cn=1-present" if min(cns) == 1 else "cn>=2", _directed(lists), "path-relative" if rel else "path-absolute"]
+    if cell["kind"] in ("tri", "general"):
+        off = cell["H"] - np.diag(np.diag(cell["H"]))
+        tags.append("tilt-" + ("negative" if (off <= 0).all() else ("positive" if (off >= 0).all() else "mixed-sign")))
     if analytic:
         tags.append("analytic-linear")
     if tied.any():
@@ -314,9 +450,9 @@ def describe_divcurl(case):
 @st.composite
 def lattice_st(draw):
     d = draw(st.sampled_from([2, 3]))
-    n = [draw(st.integers(3, 5 if d == 2 else 3)) for _ in range(d)]
+    n = [draw(st.integers(3, 6 if d == 2 else 3)) for _ in range(d)]
     if d == 3 and draw(st.booleans()):
-        n[draw(st.integers(0, 2))] = 4
+        n[draw(st.integers(0, 2))] = draw(st.sampled_from([4, 4, 5]))
     a = np.array([draw(st.one_of(st.sampled_from([1.0, 0.5, 2.0, 1.5]), nice_float(0.3, 3.0))) for _ in range(d)])
     lo = np.array([draw(nice_float(-20.0, 20.0)) for _ in range(d)])
     A = draw(hnp.arrays(np.float64, (d, d), elements=st.one_of(st.integers(-8, 8).map(lambda k: k / 4.0), fl(-2.0, 2.0)), fill=st.nothing()))
@@ -394,19 +530,27 @@ def describe_lattice(case):
 
 @st.composite
 def vib_st(draw):
-    N = draw(st.integers(1, 8))
+    N = draw(st.integers(1, 8)) if draw(st.integers(0, 7)) else draw(st.integers(20, 40))
     d = draw(st.integers(1, 3))
     mode = draw(st.sampled_from(["free", "free", "spd"]))
     rng = np.random.default_rng(draw(st.integers(0, 2**32 - 1)))     # bulk matrix entries: seeded, not shrunk
+    common = {"N": N, "d": d, "mode": mode, "save": draw(st.booleans()), "layout": draw(st.sampled_from(LAYOUTS)),
+              "twice": draw(st.booleans())}
     if mode == "spd":
         B = rng.integers(-8, 9, size=(N * d, N * d)) / 4.0
-        return {"N": N, "d": d, "mode": mode, "B": B, "save": draw(st.booleans())}
+        return {**common, "B": B}
     M = draw(st.integers(1, N * d))
-    mag = draw(hnp.arrays(np.float64, (M,), elements=nice_float(0.1, 10.0), fill=st.nothing()))
+    fkind = draw(st.sampled_from(["float", "float", "integer"]))
+    if fkind == "integer":       # integer-valued frequencies handed over as an int64 array (np.array([1, 2, 3]))
+        mag = draw(hnp.arrays(np.int64, (M,), elements=st.integers(1, 9), fill=st.nothing())).astype(float)
+    else:
+        mag = draw(hnp.arrays(np.float64, (M,), elements=nice_float(0.1, 10.0), fill=st.nothing()))
     sgn = draw(hnp.arrays(np.int64, (M,), elements=st.sampled_from([-1, 1]), fill=st.nothing()))
     vecs = np.where(rng.random((N * d, M)) < 0.5, rng.integers(-40, 41, size=(N * d, M)) / 4.0,
                     rng.uniform(-10.0, 10.0, size=(N * d, M)))
-    return {"N": N, "d": d, "mode": mode, "freq": mag * sgn, "vecs": vecs, "save": draw(st.booleans())}
+    if fkind == "integer" and draw(st.booleans()):
+        vecs = np.rint(vecs)                                     # ... and integer mode vectors
+    return {**common, "freq": mag * sgn, "vecs": vecs, "fkind": fkind}
 
 
 def check_vib(case):
@@ -417,7 +561,9 @@ def check_vib(case):
         freq = np.sqrt(lam)
     else:
         freq, vecs = case["freq"], case["vecs"]
-    fin, vin = freq.copy(), vecs.copy()
+    fin = freq.astype(np.int64) if case.get("fkind") == "integer" else freq.copy()
+    int_vecs = case.get("fkind") == "integer" and np.array_equal(vecs, np.rint(vecs))
+    vin, _keep = with_layout(vecs.astype(np.int64) if int_vecs else vecs, case.get("layout", "C"))
     kw = {"outputfile": "vib_out.npy"} if case["save"] else {}
     got = arr("vibrability", vibrability(fin, vin, N, **kw), shape=(N,))
     want = vecref.vibrability(freq, vecs, N)
@@ -431,9 +577,17 @@ def check_vib(case):
     if case["save"]:
         require(os.path.exists("vib_out.npy"), "vibrability: outputfile not written")
         equal("vibrability outputfile", np.load("vib_out.npy"), got)
+    if case.get("twice"):            # a second evaluation with a subset of the modes (same arrays' leading columns)
+        M2 = max(1, vecs.shape[1] // 2)
+        got2 = arr("vibrability (second call)", vibrability(fin[:M2], vin[:, :M2], N), shape=(N,))
+        want2 = vecref.vibrability(freq[:M2], vecs[:, :M2], N)
+        close("vibrability (second call, leading half of the modes)", got2, want2, rtol=1e-10,
+              atol=1e-13 * float(np.abs(want2).max()))
     M = vecs.shape[1]
-    tags = [case["mode"], f"d{d}", "N1" if N == 1 else "N>1", "all-modes" if M == N * d else "subset-of-modes",
-            "neg-freq" if np.any(freq < 0) else "pos-freq"]
+    tags = [case["mode"], f"d{d}", "N1" if N == 1 else ("N>1" if N <= 8 else "N20-40"),
+            "all-modes" if M == N * d else "subset-of-modes", "neg-freq" if np.any(freq < 0) else "pos-freq",
+            "freq-int64" if case.get("fkind") == "integer" else "freq-float64",
+            "vecs-int64" if int_vecs else "vecs-float64", "layout-" + case.get("layout", "C")]
     return {"nontrivial": bool(N > 1 and d > 1 and M > 1), "tags": tags}
 
 
@@ -446,7 +600,18 @@ def describe_vib(case):
 
 
 @st.composite
-def qvec_st(draw, d, nmax=12, qmax=4):
+def qvec_st(draw, d, nmax=12, qmax=4, many=False):
+    if many:
+        # a realistic list (utils.wavevector.choosewavevector(2, 27) has hundreds of rows): all integer vectors of a
+        # shell range, optionally the non-negative ones only, in a drawn order, truncated to 60..300 rows
+        m = draw(st.integers(5, 9)) if d == 2 else draw(st.integers(3, 4))
+        lo_ = 0 if draw(st.booleans()) else -m
+        grid = np.array(list(np.ndindex(*([m - lo_ + 1] * d)))) + lo_
+        grid = grid[np.any(grid != 0, axis=1)]
+        rng = np.random.default_rng(draw(st.integers(0, 2**32 - 1)))
+        if draw(st.booleans()):
+            grid = grid[rng.permutation(len(grid))]
+        return grid[:draw(st.integers(60, 300))].astype(int)
     nq = draw(st.integers(1, nmax))
     out = []
     for _ in range(nq):
@@ -460,10 +625,10 @@ def qvec_st(draw, d, nmax=12, qmax=4):
 
 
 @st.composite
-def fourier_field_st(draw, pos, L, qv):
+def fourier_field_st(draw, pos, L, qv, force=None):
     N, d = pos.shape
-    kind = draw(st.sampled_from(["random", "random", "uniform", "one", "linear", "wave-L", "wave-T", "localised"]))
-    if kind in ("uniform", "one", "random", "localised"):
+    kind = force or draw(st.sampled_from(["random", "random", "uniform", "one", "linear", "wave-L", "wave-T", "localised", "integer"]))
+    if kind in ("uniform", "one", "random", "localised", "integer"):
         return draw(field_st(N, d, kinds=(kind,)))
     if kind == "linear":
         A = draw(hnp.arrays(np.float64, (d, d), elements=st.integers(-8, 8).map(lambda k: k / 4.0), fill=st.nothing()))
@@ -486,23 +651,43 @@ def fourier_field_st(draw, pos, L, qv):
     return amp * np.cos(pos @ q + ph)[:, None] * pol[None, :] + noise, kind
 
 
+SCHEDULES = ["even", "even", "uneven", "uneven", "repeated-frame", "step-back"]
+
+
 @st.composite
-def series_st(draw, frames=(1, 1), nqmax=12, nmax=20):
+def series_st(draw, frames=(1, 1), nqmax=12, nmax=20, deep=False):
     d = draw(st.sampled_from([2, 3]))
     cell = draw(cell_st(d, "ortho", lmin=2.0, lmax=30.0))
     if draw(st.integers(0, 3)) == 0:
         cell["H"] = np.eye(d) * cell["H"][0, 0]      # cubic: permuted wave vectors share |q|
     L = np.diag(cell["H"]).copy()
-    N = draw(st.integers(2, nmax))
-    T = draw(st.sampled_from(sorted(set(range(frames[0], frames[1] + 1)) | set(range(min(3, frames[1]), frames[1] + 1)))))
-    qv = draw(qvec_st(d, nmax=nqmax))
+    size = draw(st.sampled_from(["small"] * 8 + ["many-q", "large-N"])) if frames[1] == 1 else \
+        draw(st.sampled_from(["small"] * 9 + ["large-N"]))
+    N = draw(st.integers(2, nmax)) if size != "large-N" else draw(st.integers(60, 200 if frames[1] == 1 else 80))
+    T = draw(st.sampled_from(sorted(set(range(max(2, frames[0]), frames[1] + 1)) | set(range(min(3, frames[1]), frames[1] + 1))))) \
+        if frames[1] > 1 else 1
+    if frames[0] == 1 and frames[1] > 1 and draw(st.integers(0, 14)) == 7:
+        T = 1               # a series of one frame: every correlation is its lag-zero value
+    qv = draw(qvec_st(d, nmax=nqmax, many=size == "many-q"))
+    all_integer = draw(st.integers(0, 5)) == 0      # integer-valued field in every frame (may be passed as int64)
     pos, us, kinds = [], [], []
     for _ in range(T):
-        f = draw(frac_st(N, d))
+        if N > 24:
+            rng = np.random.default_rng(draw(st.integers(0, 2**32 - 1)))        # bulk coordinates: seeded, not shrunk
+            f = rng.random((N, d))
+        else:
+            f = draw(frac_st(N, d))
         if draw(st.booleans()):
             f = f + draw(hnp.arrays(np.int64, (N, d), elements=st.integers(-1, 1), fill=st.nothing()))
         p = cell["lo"] + f @ cell["H"]
-        u, kind = draw(fourier_field_st(p, L, qv))
+        if N > 24:
+            kind = "integer" if all_integer else draw(st.sampled_from(["random", "integer", "linear"]))
+            u = {"random": lambda: rng.uniform(-10, 10, (N, d)), "integer": lambda: rng.integers(-3, 4, (N, d)).astype(float),
+                 "linear": lambda: p @ (rng.integers(-8, 9, (d, d)) / 4.0).T}[kind]()
+            if not u.any():
+                u[0, 0] = 1.0
+        else:
+            u, kind = draw(fourier_field_st(p, L, qv, force="integer" if all_integer else None))
         pos.append(p)
         us.append(u)
         kinds.append(kind)
@@ -510,19 +695,38 @@ def series_st(draw, frames=(1, 1), nqmax=12, nmax=20):
     if T == 1 and draw(st.integers(0, 2)) == 0:
         # second call on the same snapshot object after an in-place change of box, positions and field
         again = {"scale": np.array([draw(st.sampled_from([0.5, 0.8, 1.25, 2.0])) for _ in range(d)]),
-                 "f": draw(frac_st(N, d)), "u": draw(field_st(N, d, kinds=("random",)))[0]}
+                 "f": draw(frac_st(N, d)) if N <= 24 else np.random.default_rng(draw(st.integers(0, 2**32 - 1))).random((N, d)),
+                 "u": draw(field_st(N, d, kinds=("random",)))[0] if N <= 24 else
+                 np.random.default_rng(draw(st.integers(0, 2**32 - 1))).uniform(-10, 10, (N, d))}
     t0 = draw(st.one_of(st.just(0), st.integers(0, 10**6)))
-    even = draw(st.booleans())
-    if even:
+    sched = draw(st.sampled_from(SCHEDULES))
+    if sched == "even" or T < 3:
         step = draw(st.integers(1, 5000))
         ts = [t0 + k * step for k in range(T)]
-    else:
+        sched = "even" if T >= 2 else "single-frame"
+    elif sched == "uneven":
         ts = [t0]
         for _ in range(T - 1):
             ts.append(ts[-1] + draw(st.integers(1, 2000)))
+    else:
+        # schedules of frames (restart files): an evenly spaced run in which one frame is written twice (same
+        # timestep on two consecutive frames) or the counter steps back once.  "One snapshot per frame, in file order".
+        step = draw(st.integers(1, 5000))
+        k0 = draw(st.integers(1, T - 1))
+        ts, cur = [t0 + step], t0 + step
+        for k in range(1, T):
+            if k == k0:
+                cur = cur if sched == "repeated-frame" else cur - draw(st.integers(1, step))
+            else:
+                cur += step
+            ts.append(cur)
     dt = draw(st.one_of(st.sampled_from([0.002, 0.001, 0.005, 1.0]), nice_float(0.0005, 0.1)))
+    int_ok = all(np.array_equal(u_, np.rint(u_)) for u_ in us)
     return {"d": d, "cell": cell, "pos": pos, "u": us, "kinds": kinds, "qv": qv, "timesteps": ts, "dt": float(dt),
-            "out": draw(st.sampled_from(["vf", "vf", "run.1", ""])), "types": np.ones(N, dtype=int), "again": again}
+            "out": draw(st.sampled_from(["vf", "vf", "run.1", "", "vf2.csv"])), "types": np.ones(N, dtype=int), "again": again,
+            "schedule": sched, "size": size, "q_dtype": draw(st.sampled_from(["int64", "int64", "int32"])),
+            "u_int": bool(int_ok and draw(st.booleans())), "layout": draw(st.sampled_from(LAYOUTS)),
+            "omit": draw(st.sampled_from(["none", "none", "none", "dt", "outputfile", "both"]))}
 
 
 def _complex_cols(name, df, prefix, d, nq):
@@ -642,7 +846,8 @@ def check_decomp(case):
     pos, u = case["pos"][0], case["u"][0]
     N = len(pos)
     snap = snapshot_from(case["cell"], pos, case["types"], case["timesteps"][0])
-    uin, qin = u.copy(), qv.copy()
+    uin, _keep = with_layout(u.astype(np.int64) if case.get("u_int") else u, case.get("layout", "C"))
+    qin = qv.astype(np.int32) if case.get("q_dtype") == "int32" else qv.copy()
     kw = {"outputfile": case["out"]} if case["out"] else {}
     res = vector_decomposition_sq(snap, qin, uin, **kw)
     require(isinstance(res, tuple) and len(res) == 2, f"vector_decomposition_sq returned {type(res).__name__}")
@@ -669,9 +874,14 @@ def check_decomp(case):
         snap.hmatrix[...] = np.diag(L2)
         snap.boxbounds[...] = np.stack([lo, lo + L2], axis=1)
         snap.positions[...] = pos2
-        uin[...] = ag["u"]
+        u2 = ag["u"]
+        if case.get("u_int"):                   # the array object keeps its integer dtype
+            u2 = np.rint(u2)
+            if not u2.any():
+                u2[0, 0] = 1.0
+        uin[...] = u2
         vf2, ave2 = vector_decomposition_sq(snap, qin, uin)
-        ref2 = _reference(L2, d, qv, pos2, ag["u"])
+        ref2 = _reference(L2, d, qv, pos2, u2)
         name2 = "vector_decomposition_sq (second call, snapshot changed in place)"
         require(len(vf2) == nq, f"{name2}: {len(vf2)} rows for {nq} wave vectors")
         S2 = _check_table(name2, vf2, ref2, d, nq)
@@ -682,7 +892,10 @@ def check_decomp(case):
             "cubic" if len(set(np.diag(case["cell"]["H"]).tolist())) == 1 else "unequal-edges",
             "ave-checked" if ave_ok else "ave-ambiguous",
             "multi-q-groups" if groups is not None and any(len(g) > 1 for g in groups) else "single-q-groups",
-            "csv" if case["out"] else "no-csv"]
+            "csv" if case["out"] else "no-csv", "name-ends-with-.csv" if case["out"].endswith(".csv") else "name-without-.csv",
+            "size-" + case.get("size", "small"), "q-" + case.get("q_dtype", "int64"),
+            "field-dtype-int64" if case.get("u_int") else "field-dtype-float64", "layout-" + case.get("layout", "C"),
+            "nq>=60" if nq >= 60 else ("nq1" if nq == 1 else "nq<=12"), "N>=60" if N >= 60 else "N<=20"]
     if ag:
         tags.append("second-call-rescaled")
     if np.any(SL > 10 * ST + 1e-6):
@@ -710,15 +923,23 @@ def check_corr(case):
     snaps = Snapshots(nsnapshots=T, snapshots=[snapshot_from(case["cell"], p, case["types"], t)
                                               for p, t in zip(case["pos"], ts)])
     vin = np.array(case["u"])
-    vectors = vin.copy()
-    out = case["out"]
+    vectors, _keep = with_layout(vin.astype(np.int64) if case.get("u_int") else vin, case.get("layout", "C"))
+    omit = case.get("omit", "none")
+    out = "" if omit in ("outputfile", "both") else case["out"]         # documented defaults: dt = 0.002, outputfile = ""
+    dt_used = 0.002 if omit in ("dt", "both") else case["dt"]
+    kw = {}
+    if omit not in ("dt", "both"):
+        kw["dt"] = case["dt"]
+    if omit not in ("outputfile", "both"):
+        kw["outputfile"] = out
+    qin = qv.astype(np.int32) if case.get("q_dtype") == "int32" else qv.copy()
     with warnings.catch_warnings():
         warnings.simplefilter("ignore")      # 0/0 for identically vanishing components is skipped below
-        res = vector_fft_corr(snaps, qv.copy(), vectors, dt=case["dt"], outputfile=out)
+        res = vector_fft_corr(snaps, qin, vectors, **kw)
     require(isinstance(res, dict), f"vector_fft_corr returned {type(res).__name__}, not a dict")
     refs = [_reference_frame(case, n) for n in range(T)]
     even = vecref.evenly_spaced(ts)
-    tref = (np.array(ts) - ts[0]) * case["dt"]
+    tref = (np.array(ts) - ts[0]) * dt_used
     nchecked = nskipped = 0
     weakest = 0.0
     for header in ("FFT", "T_FFT", "L_FFT"):
@@ -768,13 +989,18 @@ def check_corr(case):
             tol = np.mean([[refs[n]["stol"][k][g].mean() for g in groups] for n in range(T)], axis=0) + E8 * 1.01
             _bounded(f"spectra csv: {k} = frame mean of the per-|q| averages", sp[k].values, want, tol)
     require(np.array_equal(vectors, vin), "vector_fft_corr modified the input vectors")
-    tags = [f"d{d}", f"frames{T}", "even" if even else "uneven", "spectra-checked" if spectra_ok else "spectra-ambiguous",
-            "outputfile-empty" if not out else "outputfile", "t0-zero" if ts[0] == 0 else "t0-offset"]
+    tags = [f"d{d}", f"frames{T}" if T <= 5 else "frames6-12", "even" if even else "uneven",
+            "spectra-checked" if spectra_ok else "spectra-ambiguous",
+            "outputfile-empty" if not out else "outputfile", "t0-zero" if ts[0] == 0 else "t0-offset",
+            "schedule-" + case.get("schedule", "even" if even else "uneven"), "keywords-omitted-" + omit,
+            "q-" + case.get("q_dtype", "int64"), "field-dtype-int64" if case.get("u_int") else "field-dtype-float64",
+            "layout-" + case.get("layout", "C"), "N>=60" if N >= 60 else "N<=20"]
     tags += sorted({"field-" + k for k in case["kinds"]})
     if nskipped:
         tags.append("some-q-illconditioned")
     if weakest > 1e-5:
         tags.append("bound>1e-5")
+    require(np.array_equal(qin, qv), "vector_fft_corr modified the wave-vector list")
     nontrivial = bool(nchecked >= 3 and T >= 3)
     return {"nontrivial": nontrivial, "tags": tags, "extra": {"correlations_checked": nchecked,
                                                                "correlations_skipped_illconditioned": nskipped}}
@@ -794,7 +1020,11 @@ FACETS = [
     Facet("decomposition", series_st(frames=(1, 1)), check_decomp, quick=1200, thorough=60000, describe=describe_series,
           shards_quick=4, quick_budget_s=150.0,
           rule="non-trivial = some wave vector has both Sq_L and Sq_T > 1e-6 and some wave vector is oblique"),
-    Facet("fft_corr", series_st(frames=(2, 5), nqmax=6, nmax=12), check_corr, quick=600, thorough=30000,
+    Facet("fft_corr_long", series_st(frames=(6, 12), nqmax=4, nmax=8), check_corr, quick=40, thorough=8000,
+          describe=describe_series, shards_quick=2, quick_budget_s=150.0,
+          rule="6..12 frames (longer origin averages, longer schedules incl. a repeated frame / a step back); "
+               "non-trivial as fft_corr"),
+    Facet("fft_corr", series_st(frames=(1, 5), nqmax=6, nmax=12), check_corr, quick=600, thorough=30000,
           describe=describe_series, shards_quick=4, quick_budget_s=150.0,
           rule="non-trivial = >= 3 frames and >= 3 correlations compared within their propagated bound"),
 ]
